@@ -172,7 +172,7 @@ Definition xml_guards_ok (c : xml_case) : bool :=
 Definition xml_isolation_ok (c : xml_case) : bool :=
   let ok (o : option xobs) :=
     match o with
-    | None => false
+    | None => negb (edits_expected c && negb (x_reread_ok c))   (* any other exception: model mismatch (tie break) *)
     | Some (ret, file, failed, unf) =>
         if edits_expected c && negb (x_reread_ok c)
         then match ret with None => true | Some _ => false end && str_eqb file (x_orig c) && failed &&
